@@ -7,5 +7,5 @@ CONSTANTS
   MaxText = 5
   Ints <- IntsQuick
   Obs <- ObsEmit
-INVARIANTS CopyLaws SubstrLaws InPlaceLaws
+INVARIANTS CopyLaws SubstrLaws InPlaceLaws AliasLaws
 CHECK_DEADLOCK FALSE
